@@ -6,6 +6,9 @@
  *
  * Strings travel hex-encoded ("-" = empty).  One op per line:
  *   npo2 V | swap16 V | swap32 V | swap64 V
+ *   swapw V   (V < 2^16)  MUGGLE_ENDIAN_SWAP_16 evaluated WITHOUT a 16-bit store: operand uint16_t/uint64_t/
+ *             int/uint32_t consumed as a wider integer, and the nested round trip -> "r16 r64 rint r32 rt rt64"
+ *   swapw32 V (V < 2^32)  MUGGLE_ENDIAN_SWAP_32 on a uint64_t operand and its nested round trip -> "r rt"
  *   toi|tou|tol|toul|toll|toull BASE S     -> "ok V"/"fail" + "libc V END ERANGE"
  *   tof|tod|told S CONSUMED ISINF ERANGE   -> "ok"/"fail"   + "libcf CONSUMED ISINF ERANGE SAMEVALUE"
  *   lstrip S | rstrip S | startswith S P | endswith S P | find S SUB A B | count S SUB A B
@@ -114,6 +117,24 @@ static void case_line(char *line)
 		uint16_t v = (uint16_t)strtoull(tok[1], NULL, 10);
 		uint16_t r = MUGGLE_ENDIAN_SWAP_16(v);
 		printf("%u\n", (unsigned)r);
+	} else if (strcmp(op, "swapw") == 0 && ntok >= 2) {
+		uint64_t v64 = (uint64_t)strtoull(tok[1], NULL, 10) & 0xFFFF;
+		uint16_t v16 = (uint16_t)v64;
+		uint32_t v32 = (uint32_t)v64;
+		int vi = (int)v64;
+		/* no intermediate 16-bit object anywhere below */
+		uint32_t a = MUGGLE_ENDIAN_SWAP_16(v16);
+		uint64_t b = MUGGLE_ENDIAN_SWAP_16(v64);
+		long long c = MUGGLE_ENDIAN_SWAP_16(vi);
+		uint32_t d = MUGGLE_ENDIAN_SWAP_16(v32);
+		uint32_t rt = MUGGLE_ENDIAN_SWAP_16(MUGGLE_ENDIAN_SWAP_16(v16));
+		uint64_t rt64 = MUGGLE_ENDIAN_SWAP_16(MUGGLE_ENDIAN_SWAP_16(v64));
+		printf("%" PRIu32 " %" PRIu64 " %lld %" PRIu32 " %" PRIu32 " %" PRIu64 "\n", a, b, c, d, rt, rt64);
+	} else if (strcmp(op, "swapw32") == 0 && ntok >= 2) {
+		uint64_t v64 = (uint64_t)strtoull(tok[1], NULL, 10) & 0xFFFFFFFFull;
+		uint64_t r = MUGGLE_ENDIAN_SWAP_32(v64);
+		uint64_t rt = MUGGLE_ENDIAN_SWAP_32(MUGGLE_ENDIAN_SWAP_32(v64));
+		printf("%" PRIu64 " %" PRIu64 "\n", r, rt);
 	} else if (strcmp(op, "swap32") == 0 && ntok >= 2) {
 		uint32_t v = (uint32_t)strtoull(tok[1], NULL, 10);
 		uint32_t r = MUGGLE_ENDIAN_SWAP_32(v);
